@@ -559,3 +559,249 @@ Proof.
   { intro e; cbn; tauto. }
   specialize (H Hwf Hnl Hd). vm_compute in H. discriminate H.
 Qed.
+
+(* ====================================================================================== *)
+(* ---------- at most once, for ANY order of delivery ---------- *)
+
+Inductive Sublist {A : Type} : list A -> list A -> Prop :=
+| SL_nil : forall l, Sublist [] l
+| SL_skip : forall a l x, Sublist a l -> Sublist a (x :: l)
+| SL_take : forall a l x, Sublist a l -> Sublist (x :: a) (x :: l).
+
+Definition idx_lt (a b : sentry) : Prop := s_index a < s_index b.
+
+Definition last_opt {A : Type} (l : list A) : option A :=
+  match rev l with [] => None | x :: _ => Some x end.
+
+Lemma last_opt_snoc : forall (A : Type) (l : list A) x, last_opt (l ++ [x]) = Some x.
+Proof. intros; unfold last_opt; now rewrite rev_app_distr. Qed.
+
+Lemma sorted_snoc : forall (A : Type) (R : A -> A -> Prop) l x,
+  StronglySorted R l -> Forall (fun a => R a x) l -> StronglySorted R (l ++ [x]).
+Proof.
+  intros A R l x; induction l as [|y r IH]; intros Hs Hf; cbn.
+  - constructor; constructor.
+  - inversion Hs; subst. inversion Hf; subst. constructor; [now apply IH|].
+    apply Forall_app; split; [assumption|]. constructor; [assumption|constructor].
+Qed.
+
+Lemma sorted_snoc_inv : forall (A : Type) (R : A -> A -> Prop) l x,
+  StronglySorted R (l ++ [x]) -> Forall (fun a => R a x) l.
+Proof.
+  intros A R l x; induction l as [|y r IH]; intro Hs; cbn in *; [constructor|].
+  inversion Hs as [|? ? Hs' Hall]; subst. constructor; [|now apply IH].
+  rewrite Forall_forall in Hall. apply Hall. apply in_or_app; right; now left.
+Qed.
+
+Lemma sorted_weaken : forall src, StronglySorted src_lt src -> StronglySorted idx_lt src.
+Proof.
+  intros src H; induction H as [|x r Hs IH Hall]; constructor; [exact IH|].
+  eapply Forall_impl; [|exact Hall]. intros a [H1 _]; exact H1.
+Qed.
+
+(* an index-increasing list of members of an index-increasing list is a sub-sequence of it *)
+Lemma sorted_incl_sublist : forall src acc,
+  StronglySorted idx_lt src -> StronglySorted idx_lt acc -> Forall (fun e => In e src) acc -> Sublist acc src.
+Proof.
+  induction src as [|x src IH]; intros acc Hs Ha Hin.
+  - destruct acc as [|a acc]; [constructor|]. inversion Hin as [|? ? []]; subst.
+  - inversion Hs as [|? ? Hs' Hall]; subst. rewrite Forall_forall in Hall.
+    destruct acc as [|a acc]; [constructor|].
+    inversion Ha as [|? ? Ha' Hall']; subst. rewrite Forall_forall in Hall'.
+    inversion Hin as [|? ? Hia Hin']; subst.
+    assert (Hrest : Forall (fun e => In e src) acc).
+    { rewrite Forall_forall in *. intros e He. destruct (Hin' e He) as [<-|H]; [|exact H].
+      exfalso. specialize (Hall' _ He). unfold idx_lt in *.
+      destruct Hia as [<-|Hia]; [lia|]. specialize (Hall _ Hia). unfold idx_lt in Hall. lia. }
+    destruct (N.eq_dec (s_index a) (s_index x)) as [E|NE].
+    + assert (a = x) as ->.
+      { destruct Hia as [<-|Hia]; [reflexivity|]. specialize (Hall _ Hia). unfold idx_lt in Hall. lia. }
+      apply SL_take. now apply IH.
+    + apply SL_skip. apply IH; auto. constructor; [|exact Hrest].
+      destruct Hia as [<-|Hia]; [contradiction|exact Hia].
+Qed.
+
+Lemma snoc_cases : forall (A : Type) (l : list A), l = [] \/ exists l0 x, l = l0 ++ [x].
+Proof. intros A l; induction l as [|x l _] using rev_ind; [now left|right; eauto]. Qed.
+
+Definition Inv2 (c : N) (src acc : list sentry) (st : rstate) : Prop :=
+  proj c (r_journal st) = map s_payload acc /\
+  Forall (fun e => In e src) acc /\
+  StronglySorted idx_lt acc /\
+  synced_of st c = option_map pos_of (last_opt acc).
+
+Lemma wf_in : forall c src e, wf_source c src -> In e src -> s_cluster e = c /\ 0 < s_index e.
+Proof. intros c src e [Hf _] H. rewrite Forall_forall in Hf. now apply Hf. Qed.
+
+Lemma amo_step_sync : forall c src acc st e,
+  wf_source c src -> In e src -> Inv2 c src acc st ->
+  exists acc', Inv2 c src acc' (apply_entry st (LSync e)).
+Proof.
+  intros c src acc st e Hwf Hin (Hj & Hm & Hs & Hy). destruct (wf_in _ _ _ Hwf Hin) as [Hc Hpos].
+  cbn [apply_entry]. destruct (is_already_applied (r_synced st) e) eqn:F.
+  - exists acc; repeat split; assumption.
+  - exists (acc ++ [e]). repeat split; cbn [r_journal r_synced].
+    + unfold sm_apply. rewrite proj_app, Hj, Hc, proj_one_same, map_app. reflexivity.
+    + apply Forall_app; split; [exact Hm|]. constructor; [exact Hin|constructor].
+    + apply sorted_snoc; [exact Hs|].
+      destruct (snoc_cases _ acc) as [->|NE]; [constructor|].
+      destruct NE as [acc0 [h ->]]. rewrite last_opt_snoc in Hy. cbn in Hy.
+        unfold is_already_applied in F. rewrite Hc in F. unfold synced_of in Hy. rewrite Hy in F. cbn in F.
+        assert (Hh : s_index h < s_index e) by lia.
+        apply Forall_app; split; [|constructor; [exact Hh|constructor]].
+        eapply Forall_impl; [|apply (sorted_snoc_inv _ _ _ _ Hs)]. intros a Ha. unfold idx_lt in *. lia.
+    + unfold synced_of; cbn [r_synced]. rewrite last_opt_snoc. cbn. rewrite <- Hc.
+      apply postprocess_get_same. destruct (s_index e =? 0) eqn:Z; [lia|]. now rewrite andb_false_r.
+Qed.
+
+Lemma amo_other : forall c src acc st e,
+  s_cluster e <> c -> Inv2 c src acc st -> Inv2 c src acc (apply_entry st (LSync e)).
+Proof.
+  intros c src acc st e Hne (Hj & Hm & Hs & Hy). cbn [apply_entry].
+  destruct (is_already_applied (r_synced st) e); [repeat split; assumption|].
+  repeat split; cbn [r_journal r_synced]; auto.
+  - unfold sm_apply. rewrite proj_app, proj_one_other by exact Hne. now rewrite app_nil_r.
+  - unfold synced_of in *; cbn [r_synced]. rewrite postprocess_get_other by (intro X; apply Hne; now symmetry). exact Hy.
+Qed.
+
+Lemma amo_local : forall c src acc st t p,
+  t <> c -> Inv2 c src acc st -> Inv2 c src acc (apply_entry st (LLocal t p)).
+Proof.
+  intros c src acc st t p Hne (Hj & Hm & Hs & Hy). repeat split; cbn [apply_entry r_journal r_synced]; auto.
+  unfold sm_apply. rewrite proj_app, proj_one_other by exact Hne. now rewrite app_nil_r.
+Qed.
+
+Lemma amo_log : forall c src l st acc,
+  wf_source c src -> no_local_tag c l -> (forall e, In e (deliveries c l) -> In e src) ->
+  Inv2 c src acc st -> exists acc', Inv2 c src acc' (apply_log st l).
+Proof.
+  intros c src l; induction l as [|le l IH]; intros st acc Hwf Hnl Hd HI.
+  - exists acc; exact HI.
+  - rewrite apply_log_cons. inversion Hnl as [|? ? Hle Hnl']; subst.
+    destruct le as [e|t p].
+    + destruct (N.eq_dec (s_cluster e) c) as [Hc|Hne].
+      * assert (Hin : In e src).
+        { apply Hd. cbn. apply N.eqb_eq in Hc. rewrite Hc. now left. }
+        destruct (amo_step_sync _ _ _ _ _ Hwf Hin HI) as [acc' HI'].
+        apply (IH _ acc' Hwf Hnl'); [|exact HI'].
+        intros x Hx. apply Hd. cbn. apply N.eqb_eq in Hc. rewrite Hc. now right.
+      * apply (IH _ acc Hwf Hnl'); [|now apply amo_other].
+        intros x Hx. apply Hd. cbn. apply N.eqb_neq in Hne. now rewrite Hne.
+    + apply (IH _ acc Hwf Hnl'); [|now apply amo_local].
+      intros x Hx. apply Hd. exact Hx.
+Qed.
+
+(* at most once, in source order, for ANY order of delivery (re-orderings, gaps, losses included):
+   the data replicated from c is the payload image of a sub-sequence of the source log, and the
+   recorded position is the position of the last applied entry *)
+Theorem at_most_once_log : forall c src l,
+  wf_source c src -> no_local_tag c l -> (forall e, In e (deliveries c l) -> In e src) ->
+  exists acc, Sublist acc src /\
+    proj c (r_journal (apply_log init_r l)) = map s_payload acc /\
+    synced_of (apply_log init_r l) c = option_map pos_of (last_opt acc).
+Proof.
+  intros c src l Hwf Hnl Hd.
+  destruct (amo_log c src l init_r [] Hwf Hnl Hd) as [acc (Hj & Hm & Hs & Hy)].
+  { repeat split; try constructor. }
+  exists acc; repeat split; auto. apply sorted_incl_sublist; auto. apply sorted_weaken, Hwf.
+Qed.
+
+Theorem at_most_once : forall ops c src,
+  c <> 0 -> wf_source c src -> (forall e, In e (deliveries c (n_log (run ops))) -> In e src) ->
+  exists acc, Sublist acc src /\
+    proj c (r_journal (n_cur (run ops))) = map s_payload acc /\
+    synced_of (n_cur (run ops)) c = option_map pos_of (last_opt acc).
+Proof.
+  intros ops c src Hc Hwf Hd. rewrite run_refines_log.
+  apply at_most_once_log; auto. now apply run_no_local_tag.
+Qed.
+
+(* what enters the committed log was delivered: the hypothesis above can be read on the schedule *)
+Fixpoint delivered (ops : list op) : list sentry :=
+  match ops with
+  | [] => []
+  | ODeliver e _ _ _ :: r => e :: delivered r
+  | ORpc b :: r => map fst b ++ delivered r
+  | _ :: r => delivered r
+  end.
+
+Lemma delivered_app : forall a b, delivered (a ++ b) = delivered a ++ delivered b.
+Proof.
+  induction a as [|o a IH]; intro b; cbn; [reflexivity|].
+  destruct o; cbn; rewrite ?IH, <- ?app_assoc; reflexivity.
+Qed.
+
+Lemma in_deliveries : forall c l e, In e (deliveries c l) <-> In (LSync e) l /\ s_cluster e = c.
+Proof.
+  intros c l e; induction l as [|le l IH]; cbn; [tauto|].
+  rewrite in_app_iff, IH. destruct le as [x|t p].
+  - destruct (s_cluster x =? c) eqn:E; cbn.
+    + apply N.eqb_eq in E. split.
+      * intros [[<-|[]]|[H1 H2]]; auto.
+      * intros [[H|H] Hc]; [inversion H; subst; auto|auto].
+    + apply N.eqb_neq in E. split.
+      * intros [[]|[H1 H2]]; auto.
+      * intros [[H|H] Hc]; [inversion H; subst; contradiction|auto].
+  - split.
+    + intros [[]|[H1 H2]]; auto.
+    + intros [[H|H] Hc]; [discriminate|auto].
+Qed.
+
+Lemma rpc_collect_in : forall m b e, In (LSync e) (fst (rpc_collect m b)) -> In e (map fst b).
+Proof.
+  intros m b e; induction b as [|[x tsok] r IH]; cbn; [tauto|].
+  destruct (prefilter m x); [intro H; right; now apply IH|].
+  destruct (negb tsok); cbn; [tauto|].
+  destruct (rpc_collect m r) as [l ok]; cbn in *. intros [H|H]; [inversion H; now left|right; now apply IH].
+Qed.
+
+Definition from_delivered (nd : node) (ds : list sentry) : Prop :=
+  forall e, In (LSync e) (n_log nd ++ n_pending nd) -> In e ds.
+
+Lemma commit_n_from : forall nd k ds, from_delivered nd ds -> from_delivered (commit_n nd k) ds.
+Proof.
+  intros nd k ds H e; unfold commit_n; cbn [n_log n_pending]. rewrite <- app_assoc, firstn_skipn. apply H.
+Qed.
+
+Lemma step_from : forall nd o ds, from_delivered nd ds -> from_delivered (fst (step nd o)) (ds ++ delivered [o]).
+Proof.
+  intros nd o ds H. assert (W : from_delivered nd (ds ++ delivered [o])).
+  { intros e He; apply in_or_app; left; now apply H. }
+  destruct o as [x tsok propok pre|n| |p| | |b]; cbn [step delivered].
+  - destruct (pre && prefilter (r_synced (n_cur nd)) x); [exact W|].
+    destruct (negb tsok); [exact W|]. destruct (negb propok); [exact W|]. unfold from_delivered; cbn.
+    intros e He. rewrite app_assoc in He. apply in_app_or in He. destruct He as [He|[He|[]]].
+    + apply in_or_app; left; now apply H.
+    + inversion He; subst. apply in_or_app; right; now left.
+  - destruct (Nat.min n (length (n_pending nd))); [exact W|]. now apply commit_n_from.
+  - destruct (n_pending nd) as [|y r] eqn:E; [exact W|]. unfold from_delivered; cbn. intros e He. apply W. rewrite E.
+    apply in_app_or in He. apply in_or_app. destruct He; [now left|right; now right].
+  - unfold from_delivered; cbn. intros e He. apply W. rewrite <- app_assoc in He. apply in_app_or in He. apply in_or_app.
+    destruct He as [He|He]; [now left|]. destruct He as [He|He]; [discriminate|now right].
+  - exact W.
+  - destruct (restore nd); unfold from_delivered; cbn. intros e He. apply W. rewrite app_nil_r in He. apply in_or_app; now left.
+  - pose proof (rpc_collect_in (r_synced (n_cur nd)) b) as Hr.
+    destruct (rpc_collect (r_synced (n_cur nd)) b) as [l ok]; cbn [fst snd] in *.
+    apply commit_n_from. unfold from_delivered; cbn. intros e He. rewrite app_assoc in He. apply in_app_or in He. destruct He as [He|He].
+    + apply in_or_app; left; now apply H.
+    + apply in_or_app; right. rewrite app_nil_r. now apply Hr.
+Qed.
+
+Lemma run_from_delivered : forall ops, from_delivered (run ops) (delivered ops).
+Proof.
+  intros ops; induction ops as [|o ops IH] using rev_ind; [intros e []|].
+  rewrite run_snoc, delivered_app. now apply step_from.
+Qed.
+
+(* at most once over ALL schedules whose deliveries are source entries: whatever the order, however often *)
+Theorem at_most_once_sched : forall ops c src,
+  c <> 0 -> wf_source c src ->
+  (forall e, In e (delivered ops) -> s_cluster e = c -> In e src) ->
+  exists acc, Sublist acc src /\
+    proj c (r_journal (n_cur (run ops))) = map s_payload acc /\
+    synced_of (n_cur (run ops)) c = option_map pos_of (last_opt acc).
+Proof.
+  intros ops c src Hc Hwf Hd. apply at_most_once; auto.
+  intros e He. apply in_deliveries in He. destruct He as [Hin Hce]. apply Hd; [|exact Hce].
+  apply (run_from_delivered ops). apply in_or_app; now left.
+Qed.
